@@ -30,6 +30,8 @@ REGIONS = {
     'find':        (INC + 'mock.hpp', 2301, 2381, ['C02', 'C15', 'C01']),
     'clauses':     (INC + 'mock.hpp', 2382, 2541, ['C08', 'C09']),
     'times':       (INC + 'mock.hpp', 2822, 2926, ['C03', 'C07']),
+    'modifiers':   (INC + 'mock.hpp', 2607, 2821, ['C08', 'C09', 'C19']),
+    'reporting':   (INC + 'mock.hpp', 640, 880, ['C16', 'C17', 'C15']),
     'callmatcher': (INC + 'mock.hpp', 2941, 3250, ['C01', 'C04', 'C05', 'C08', 'C15', 'C16', 'C12']),
     'mockfunc':    (INC + 'mock.hpp', 3251, 3417, ['C01', 'C02', 'C03', 'C04', 'C14', 'C17', 'C19']),
     'sequence':    (INC + 'sequence.hpp', 30, 412, ['C05', 'C06', 'C02', 'C14']),
